@@ -141,3 +141,29 @@ def truthy(v, seq_len=None):
 
 def simp(e):
     return z3.simplify(e)
+
+
+# ---- solver call with a hard stop: z3's own 'timeout' parameter is occasionally not honoured (seen: a check() that ran for two hours
+# under load); a timer thread interrupts the solver shortly after its budget, and every call beats the worker's heartbeat so that the
+# scheduler (run.py) can tell a busy worker from a stuck one.
+import threading as _threading, time as _time
+HEARTBEAT = [None]          # set by run.py in worker processes: a multiprocessing.Value('d')
+
+
+def beat():
+    hb = HEARTBEAT[0]
+    if hb is not None:
+        hb.value = _time.time()
+
+
+def guarded_check(s, budget_ms):
+    beat()
+    # the timer must not hold the solver (a solver released on the timer's thread races with z3 calls on the main thread)
+    t = _threading.Timer(budget_ms / 1000.0 * 1.5 + 5.0, z3.main_ctx().interrupt)
+    t.daemon = True
+    t.start()
+    try:
+        return s.check()
+    finally:
+        t.cancel()
+        beat()
